@@ -422,11 +422,14 @@ def add_mime_diff(key, avalue, bvalue, diffbuilder):
     mimetype = key.lower()
     if isinstance(avalue, str) and isinstance(bvalue, str) and avalue == bvalue:
         return
-    if any(mimetype.startswith(tm) for tm in _split_mimes):
+    if (any(mimetype.startswith(tm) for tm in _split_mimes) and
+            any(isinstance(avalue, t) and isinstance(bvalue, t) for t in (str, list, dict))):
         dd = diff(avalue, bvalue)
         if dd:
             diffbuilder.patch(key, dd)
-    elif avalue != bvalue:
+    elif not strict_equal(avalue, bvalue):
+        # JSON mimetypes can hold any value: only containers of the same kind
+        # can be diffed recursively, anything else is replaced
         diffbuilder.replace(key, bvalue)
 
 
